@@ -63,15 +63,30 @@ func Run(cfg hx.Config) (*hx.Meta, error) {
 			s2 := *sc
 			s2.Flags = fl
 			root := filepath.Join(cfg.Work, fmt.Sprintf("fixed%02d_%d", i, j))
-			if _, err := rn.run(root, &s2, false); err != nil {
+			out, err := rn.run(root, &s2, false)
+			if err != nil {
 				return nil, err
+			}
+			if out.class == "ok" && s2.flagsSet() && (j == 3 || !s2.importsStdlib()) {
+				if err := rn.rerunWithoutFlags(root, &s2); err != nil {
+					return nil, err
+				}
 			}
 			meta.Packages++
 			meta.Count("scenario/" + s2.classOr("hand-written"))
 		}
 	}
 
-	// 2. generated packages with a plan: outcomes x flags x renamings x formatting
+	// 2. hand-written packages with a plan (several passes over one file, generated-code headers, unparsable
+	// files with a renaming in the first / a later pass)
+	for i, sc := range fixedPlanned() {
+		if err := rn.runPlanned(sc, 1+i, true); err != nil {
+			return nil, err
+		}
+		meta.Count("scenario/" + sc.Class)
+	}
+
+	// 3. generated packages with a plan: outcomes x flags x renamings x formatting x passes x file headers
 	n := 21
 	if cfg.Tier == "thorough" {
 		n = 300
@@ -86,6 +101,10 @@ func Run(cfg hx.Config) (*hx.Meta, error) {
 			buildTag:  r.Intn(3) == 0,
 			reserved:  r.Intn(3) == 0,
 			noFinalNL: r.Intn(2) == 0,
+			headers:   i%3 != 2,
+		}
+		if i%3 == 1 {
+			o.nested = 1 + i%2
 		}
 		switch i % 7 {
 		case 2:
@@ -110,46 +129,18 @@ func Run(cfg hx.Config) (*hx.Meta, error) {
 		if o.layout {
 			meta.Count("plan/comments-or-breaks-before-calls")
 		}
+		if o.nested > 0 {
+			meta.Count(fmt.Sprintf("plan/nested-calls-depth<=%d", o.nested))
+		}
+		for _, f := range sc.plan.files {
+			if src := sc.Files[f.rel]; strings.HasPrefix(src, "// Code generated") && len(f.calls) > 0 {
+				meta.Count("plan/file-with-generated-code-header")
+				break
+			}
+		}
 		meta.Count("plan/inject=" + o.inject + o.loadErr)
-		for j, fl := range flagCombos {
-			s2 := *sc
-			s2.Flags = fl
-			root := filepath.Join(cfg.Work, fmt.Sprintf("%s_%d", sc.Name, j))
-			out, err := rn.run(root, &s2, false)
-			if err != nil {
-				return nil, err
-			}
-			meta.Packages++
-			obs.WriteString(effectsLine(&s2, nil, false, out))
-			meta.Cases++
-			if j == 3 {
-				meta.Sample(fmt.Sprintf("%s flags=%v outcome=%s rewritten=%v", sc.Name, fl, out.class, out.touched))
-			}
-			// a second run over the result: with the (possibly renamed) call sites as they are now
-			if out.class == "ok" || (i%3 == 0 && out.class != "crash") {
-				cur := out.names
-				out2, err := rn.run(root, &s2, true)
-				if err != nil {
-					return nil, err
-				}
-				obs.WriteString(effectsLine(&s2, cur, out.derived, out2))
-				meta.Cases++
-				meta.Count("second-run")
-				if out.class == "ok" && len(out2.touched) > 0 {
-					rn.direct(&s2, "c10-unexpected-change", fmt.Sprintf("second run over a successful result rewrote %v again", out2.touched), out2.out, nil)
-				}
-			}
-			// the whole tree from the module root
-			if i%5 == 0 && j == 3 {
-				s3 := s2
-				s3.PkgDir = "."
-				s3.Args = []string{"./..."}
-				s3.Name = sc.Name + "-dotdotdot"
-				if _, err := rn.run(filepath.Join(cfg.Work, s3.Name), &s3, false); err != nil {
-					return nil, err
-				}
-				meta.Count("scenario/whole-tree")
-			}
+		if err := rn.runPlanned(sc, i, false); err != nil {
+			return nil, err
 		}
 	}
 
@@ -164,6 +155,69 @@ func Run(cfg hx.Config) (*hx.Meta, error) {
 	}
 	sort.Strings(keys)
 	return meta, nil
+}
+
+// runPlanned: one planned package under the four flag combinations, each followed by a second run over the
+// result (always, or as the index decides), a run without flags over a successful result, and for some the
+// whole tree from the module root.
+func (rn *runner) runPlanned(sc *scenario, i int, always bool) error {
+	cfg, meta, obs := rn.cfg, rn.meta, rn.obs
+	for j, fl := range flagCombos {
+		s2 := *sc
+		s2.Flags = fl
+		root := filepath.Join(cfg.Work, fmt.Sprintf("%s_%d", sc.Name, j))
+		out, err := rn.run(root, &s2, false)
+		if err != nil {
+			return err
+		}
+		meta.Packages++
+		obs.WriteString(effectsLine(&s2, nil, false, out))
+		meta.Cases++
+		if j == 3 {
+			meta.Sample(fmt.Sprintf("%s flags=%v outcome=%s rewritten=%v", sc.Name, fl, out.class, out.touched))
+		}
+		// a second run over the result: with the (possibly renamed) call sites as they are now
+		if out.class == "ok" || ((always || i%3 == 0) && out.class != "crash") {
+			cur := out.names
+			out2, err := rn.run(root, &s2, true)
+			if err != nil {
+				return err
+			}
+			obs.WriteString(effectsLine(&s2, cur, out.derived, out2))
+			meta.Cases++
+			meta.Count("second-run")
+			if out.class == "ok" && len(out2.touched) > 0 {
+				rn.direct(&s2, "c10-unexpected-change", fmt.Sprintf("second run over a successful result rewrote %v again", out2.touched), out2.out, nil)
+			}
+			if out.class == "ok" && s2.flagsSet() && (j == 3 || !s2.importsStdlib()) {
+				if err := rn.rerunWithoutFlags(root, &s2); err != nil {
+					return err
+				}
+			}
+		}
+		// the whole tree from the module root
+		if i%5 == 0 && j == 3 {
+			s3 := s2
+			s3.PkgDir = "."
+			s3.Args = []string{"./..."}
+			s3.Name = sc.Name + "-dotdotdot"
+			if _, err := rn.run(filepath.Join(cfg.Work, s3.Name), &s3, false); err != nil {
+				return err
+			}
+			meta.Count("scenario/whole-tree")
+		}
+	}
+	return nil
+}
+
+// importsStdlib: goderive type-checks imported packages from source (about a second per run)
+func (sc *scenario) importsStdlib() bool {
+	for rel, src := range sc.Files {
+		if strings.HasSuffix(rel, ".go") && sc.processed(rel) && strings.Contains(src, "\nimport ") {
+			return true
+		}
+	}
+	return false
 }
 
 func (sc *scenario) classOr(d string) string {
